@@ -19,11 +19,16 @@ from . import REPO, VERIF
 TRUSTED_BASE = [
     "CPython ast module (parsing of /repo sources)",
     "pv symbolic executor / VC generator (/verif/pv; mitigated by seeded-mutation tests and run-time monitor cross-check)",
-    "z3 4.x/5.x and cvc5 as SMT back ends",
+    "SMT back ends: z3 5.1.0 (wheel, Python API), z3 4.8.12 (Debian, CLI) and cvc5 1.0.3; an unsat counts when two of "
+    "them agree, single-solver proofs are listed under single_solver_proofs (DESIGN.md 0.4)",
+    "A7 get_name modelled as non-modifying; A8 every object reachable at function entry is allocated (reads through "
+    "entry-state terms skip updates at later allocations); A9 multiplicativity of a unit name and the registry of a "
+    "Quantity class are fixed during a call; decorators check_implemented / ireduce_dimensions are pass-through for the "
+    "modelled operand types (DESIGN.md 7)",
     "Python semantics assumed by the encoding: see DESIGN.md 2.2 (ints/Fractions as mathematical numbers; floats "
     "and Decimals treated as mathematical reals (A1); numeric-tower ==/hash invariant (A3))",
 ]
-DROPPED = ["type annotations", "docstrings and comments", "logger.* and warnings.warn calls (treated as no-ops)",
+DROPPED = ["type annotations", "docstrings and comments", "decorators", "logger.* and warnings.warn calls (treated as no-ops)",
            "f-string / str.format message texts (modelled as unspecified strings)"]
 
 
